@@ -165,16 +165,22 @@ def doneCore (s : State) : State :=
   let s1 := cleanup s
   exitAgg { s1 with flagged := flagAll s1.flagged s1.current, needChk := minus s1.needChk (keysOf s1.current) }
 
+/-- `if assignedPrimaryKey || lastAssignedPrimaryKey { resetPrimary(false) }` -/
+def cancelPrim (s : State) : State :=
+  if s.aAssigned || s.aLastAssigned then { s with primary := none } else s
+
 def cancelCore (s : State) : State :=
-  let s1 := cleanup s
-  let s2 := if s1.aAssigned || s1.aLastAssigned then { s1 with primary := none } else s1
+  let s2 := cancelPrim (cleanup s)
   exitAgg { s2 with rb := s2.rb ++ keysOf s2.current,
                     store := minus s2.store (keysOf s2.current),
                     lockedCnt := s2.lockedCnt - s2.current.length }
 
+/-- `if assignedPrimaryKey { …; resetPrimary(true) }` -/
+def retryPrim (s : State) : State :=
+  if s.aAssigned then { s with aAssigned := false, aLastAssigned := true, primary := none } else s
+
 def retryCore (s : State) : State :=
-  let s1 := cleanup s
-  let s2 := if s1.aAssigned then { s1 with aAssigned := false, aLastAssigned := true, primary := none } else s1
+  let s2 := retryPrim (cleanup s)
   { s2 with aLastPrimary := s2.aPrimary, aPrimary := none, lastRetry := s2.current, current := [] }
 
 def startStep (s : State) : State :=
@@ -294,14 +300,22 @@ def lockOk (s : State) (i : LockIn) (keys : List Key) (al : Bool) : State :=
   if lwcErr s i keys then { s3 with res := .errLwcSanity }
   else { s3 with lockedCnt := s3.lockedCnt + ((keys.length : Int) - ((keys.filter (skipKey i)).length : Int)) }
 
-def lockFail (s : State) (keys : List Key) (al : Bool) (e : Err) : State :=
+/-- UnmarkPresumeKeyNotExists for the keys of the failed request -/
+def unmark (s : State) (keys : List Key) : State :=
   let un := keys.filter fun k => s.pne.contains k
-  let s2 := { s with pne := minus s.pne un, needChk := minus s.needChk un }
-  -- "If there is only 1 key and lock fails, no need to do pessimistic rollback"
-  let s3 := if decide (keys.length > 1) || (e != .wc && e != .ke) then
-      { s2 with rb := s2.rb ++ keys, store := minus s2.store keys,
-                current := if s2.inAgg then eraseAllE s2.current keys else s2.current }
-    else s2
+  { s with pne := minus s.pne un, needChk := minus s.needChk un }
+
+/-- "If there is only 1 key and lock fails, no need to do pessimistic rollback" -/
+def needRollback (keys : List Key) (e : Err) : Bool := decide (keys.length > 1) || (e != .wc && e != .ke)
+
+/-- asyncPessimisticRollback of the call's keys; they leave currentLockedKeys -/
+def rollbackCall (s : State) (keys : List Key) : State :=
+  { s with rb := s.rb ++ keys, store := minus s.store keys,
+           current := if s.inAgg then eraseAllE s.current keys else s.current }
+
+def lockFail (s : State) (keys : List Key) (al : Bool) (e : Err) : State :=
+  let s2 := unmark s keys
+  let s3 := if needRollback keys e then rollbackCall s2 keys else s2
   let s4 := if al then { s3 with primary := none } else s3
   { s4 with res := .errStore e }
 
@@ -312,34 +326,55 @@ def lockSend (s : State) (i : LockIn) (keys : List Key) (al : Bool) : State :=
   | some e => lockFail s1 keys al e
   | none => lockOk s1 i keys al
 
+/-- `delete(lastRetryUnnecessaryLocks, key)` -/
+def takeOut (s : State) (k : Key) : State := { s with lastRetry := eraseE s.lastRetry k }
+
+/-- `canTrySkip && lastResult.trySkipLockingOnRetry(…)`: the changed entry if the key can be skipped -/
+def skipDecision (s : State) (e : Entry) (i : LockIn) : Option Entry :=
+  if !s.aAssigned || s.aLastPrimary == s.aPrimary then trySkip e i.o.rv i.o.ce else none
+
+/-- the key could be skipped; it is, unless the locks of the previous attempt may have expired -/
+def aggSkip (s : State) (i : LockIn) (k : Key) (al : Bool) (e' : Entry) : State :=
+  if i.mayExpire then lockSend (takeOut s k) i [k] al
+  else { takeOut s k with current := upsertE s.current e' }
+
+/-- the key is in lastRetryUnnecessaryLocks -/
+def lockAggFound (s : State) (i : LockIn) (k : Key) (al : Bool) (e : Entry) : State :=
+  if i.fu < e.lwc then { s with res := .errAggSanity }
+  else
+    match skipDecision s e i with
+    | some e' => aggSkip s i k al e'
+    | none => lockSend (takeOut s k) i [k] al
+
 /-- filterAggressiveLockedKeys for the one key of the call, then the request if it is still needed -/
 def lockAgg (s : State) (i : LockIn) (k : Key) (al : Bool) : State :=
   match findE s.lastRetry k with
   | none => lockSend s i [k] al
-  | some e =>
-    if i.fu < e.lwc then { s with res := .errAggSanity }
-    else
-      let s' := { s with lastRetry := eraseE s.lastRetry k }
-      let canTrySkip := !s.aAssigned || s.aLastPrimary == s.aPrimary
-      match (if canTrySkip then trySkip e i.o.rv i.o.ce else none) with
-      | some e' => if i.mayExpire then lockSend s' i [k] al else { s' with current := upsertE s'.current e' }
-      | none => lockSend s' i [k] al
+  | some e => lockAggFound s i k al e
+
+/-- exitAggressiveLockingIfInapplicable -/
+def preLock (s : State) (i : LockIn) : State :=
+  if s.inAgg && decide (i.keys.length > 1) then doneCore s else s
+
+/-- `if txn.committer.primaryKey == nil { selectPrimaryForPessimisticLock(keys) }` -/
+def selPrim (s : State) (keys : List Key) : State := if s.primary.isNone then selectPrimary s keys else s
+
+/-- after the primary is settled: inside aggressive locking the one key goes through filterAggressiveLockedKeys -/
+def lockGo (s : State) (i : LockIn) (keys : List Key) (al : Bool) : State :=
+  if s.inAgg then
+    match keys with
+    | [k] => lockAgg s i k al
+    | _ => lockSend s i keys al       -- not reachable: inside aggressive locking a call has one key
+  else lockSend s i keys al
 
 def lockStep (s : State) (i : LockIn) : State :=
-  let s0 := if s.inAgg && decide (i.keys.length > 1) then doneCore s else s
-  if earlyKE s0 i.keys then { s0 with res := .errKeyExists } else
+  let s0 := preLock s i
   let keys := needLock s0 i.keys
-  if keys.isEmpty then s0 else
-  if i.o.loie && !i.o.rv then { s0 with res := .errLoieNoRV } else
-  if i.o.loie && s0.primary.isNone && decide (keys.length > 1) then { s0 with res := .errLoieNoPrimary } else
-  let keys := normKeys keys
-  let al := s0.primary.isNone
-  let s1 := if al then selectPrimary s0 keys else s0
-  if s1.inAgg then
-    match keys with
-    | [k] => lockAgg s1 i k al
-    | _ => lockSend s1 i keys al       -- not reachable: inside aggressive locking a call has one key
-  else lockSend s1 i keys al
+  if earlyKE s0 i.keys then { s0 with res := .errKeyExists }
+  else if keys.isEmpty then s0
+  else if i.o.loie && !i.o.rv then { s0 with res := .errLoieNoRV }
+  else if i.o.loie && s0.primary.isNone && decide (keys.length > 1) then { s0 with res := .errLoieNoPrimary }
+  else lockGo (selPrim s0 (normKeys keys)) i (normKeys keys) s0.primary.isNone
 
 def pneStep (s : State) (k : Key) : State :=
   { s with pne := if s.pne.contains k then s.pne else k :: s.pne,
